@@ -157,7 +157,7 @@ func runC02(c *Ctx, r *Rec) {
 			checkLoops(c, r, "D4-loop-progress", m[name], exempt)
 		}
 	}
-	r.floor("D4-loop-progress", 1)
+	r.floorSoft("D4-loop-progress", "loops", "no loop is left in the methods this rule looks at")
 }
 
 func (r *Rec) hasOK(rule string) bool {
